@@ -1,16 +1,420 @@
 package main
 
-// Library models (assumed contracts on dependencies).
+// Library models (assumed contracts on dependencies): math/big.Int,
+// holiman/uint256.Int, common/math, math/bits, encoding/binary.
+// Each model is listed in the evidence of every property that uses it.
 
 import (
+	"fmt"
 	"go/types"
+	"strings"
 
 	"golang.org/x/tools/go/ssa"
 )
 
-// libModel handles calls to known library functions; returns false if none applies.
+const two256 = "115792089237316195423570985008687907853269984665640564039457584007913129639936"
+const two64 = "18446744073709551616"
+
+func (vc *FnVC) cellGet(comp, ref string) string {
+	return fmt.Sprintf("(select %s %s)", vc.heapGet(comp, "(Array Int Int)"), ref)
+}
+
+func (vc *FnVC) cellSet(comp, ref, val string, in *ssa.Call, what string) {
+	vc.checkWrite(comp, ref, "", what, in.Pos())
+	vc.heapSet(comp, "(Array Int Int)", fmt.Sprintf("(store %s %s %s)", vc.heapGet(comp, "(Array Int Int)"), ref, val))
+}
+
+func (vc *FnVC) setRes(in *ssa.Call, terms ...Term) {
+	vc.setCallResult(in, terms)
+}
+
+func (vc *FnVC) modelUsed(name string) {
+	vc.havocked[name+" [library model]"] = true
+}
+
+// defineNamed introduces a named constant equal to term (keeps queries readable).
+func (vc *FnVC) defineNamed(prefix, sort, term string) string {
+	n := vc.freshConst(prefix, sort)
+	vc.fact(fmt.Sprintf("(= %s %s)", n, term))
+	return n
+}
+
 func (vc *FnVC) libModel(in *ssa.Call, callee *ssa.Function) bool {
+	name := callee.String()
+	args := in.Call.Args
+	a := func(i int) string { return vc.val(args[i]).S }
+	intT := func(s string) Term { return Term{S: s, Sort: "Int"} }
+	boolT := func(s string) Term { return Term{S: s, Sort: "Bool"} }
+	switch {
+	case strings.HasPrefix(name, "(*github.com/holiman/uint256.Int)."):
+		m := strings.TrimPrefix(name, "(*github.com/holiman/uint256.Int).")
+		return vc.u256Method(in, m, args)
+	case strings.HasPrefix(name, "github.com/holiman/uint256."):
+		m := strings.TrimPrefix(name, "github.com/holiman/uint256.")
+		switch m {
+		case "NewInt":
+			r := vc.newAllocRef("u256")
+			vc.cellSet("U256", r, a(0), in, "new uint256")
+			vc.setRes(in, intT(r))
+			vc.modelUsed(name)
+			return true
+		case "FromBig", "MustFromBig":
+			r := vc.newAllocRef("u256")
+			b := vc.cellGet("BigVal", a(0))
+			vc.cellSet("U256", r, fmt.Sprintf("(mod %s %s)", b, two256), in, "new uint256")
+			ovf := fmt.Sprintf("(or (>= %s %s) (<= %s (- %s)))", b, two256, b, two256)
+			if m == "FromBig" {
+				vc.setRes(in, intT(r), boolT(vc.defineNamed("ovf", "Bool", ovf)))
+			} else {
+				vc.obAssert("bounds", "panic@"+vc.srcText(in), "MustFromBig argument fits 256 bits", "(not "+ovf+")", in.Pos())
+				vc.setRes(in, intT(r))
+			}
+			vc.modelUsed(name)
+			return true
+		}
+	case strings.HasPrefix(name, "(*math/big.Int)."):
+		m := strings.TrimPrefix(name, "(*math/big.Int).")
+		return vc.bigMethod(in, m, args)
+	case name == "math/big.NewInt":
+		r := vc.newAllocRef("big")
+		vc.cellSet("BigVal", r, a(0), in, "new big.Int")
+		vc.setRes(in, intT(r))
+		vc.modelUsed(name)
+		return true
+	case strings.HasPrefix(name, "github.com/ethereum/go-ethereum/common/math."):
+		m := strings.TrimPrefix(name, "github.com/ethereum/go-ethereum/common/math.")
+		switch m {
+		case "SafeAdd":
+			s := fmt.Sprintf("(+ %s %s)", a(0), a(1))
+			vc.setRes(in, intT(vc.defineNamed("sadd", "Int", fmt.Sprintf("(mod %s %s)", s, two64))), boolT(vc.defineNamed("ovf", "Bool", fmt.Sprintf("(>= %s %s)", s, two64))))
+			vc.modelUsed(name)
+			return true
+		case "SafeSub":
+			vc.setRes(in, intT(vc.defineNamed("ssub", "Int", fmt.Sprintf("(mod (- %s %s) %s)", a(0), a(1), two64))), boolT(vc.defineNamed("ovf", "Bool", fmt.Sprintf("(< %s %s)", a(0), a(1)))))
+			vc.modelUsed(name)
+			return true
+		case "SafeMul":
+			p := fmt.Sprintf("(* %s %s)", a(0), a(1))
+			vc.setRes(in, intT(vc.defineNamed("smul", "Int", fmt.Sprintf("(mod %s %s)", p, two64))), boolT(vc.defineNamed("ovf", "Bool", fmt.Sprintf("(>= %s %s)", p, two64))))
+			vc.modelUsed(name)
+			return true
+		}
+	case strings.HasPrefix(name, "math/bits."):
+		m := strings.TrimPrefix(name, "math/bits.")
+		switch m {
+		case "Add64":
+			s := fmt.Sprintf("(+ %s %s %s)", a(0), a(1), a(2))
+			vc.setRes(in, intT(vc.defineNamed("add64", "Int", fmt.Sprintf("(mod %s %s)", s, two64))), intT(vc.defineNamed("carry", "Int", fmt.Sprintf("(div %s %s)", s, two64))))
+			vc.modelUsed(name)
+			return true
+		case "Sub64":
+			d := fmt.Sprintf("(- (- %s %s) %s)", a(0), a(1), a(2))
+			vc.setRes(in, intT(vc.defineNamed("sub64", "Int", fmt.Sprintf("(mod %s %s)", d, two64))), intT(vc.defineNamed("borrow", "Int", fmt.Sprintf("(ite (< %s 0) 1 0)", d))))
+			vc.modelUsed(name)
+			return true
+		case "Mul64":
+			p := fmt.Sprintf("(* %s %s)", a(0), a(1))
+			vc.setRes(in, intT(vc.defineNamed("mulhi", "Int", fmt.Sprintf("(div %s %s)", p, two64))), intT(vc.defineNamed("mullo", "Int", fmt.Sprintf("(mod %s %s)", p, two64))))
+			vc.modelUsed(name)
+			return true
+		case "Len64", "Len", "Len32", "Len8", "Len16":
+			r := vc.freshConst("blen", "Int")
+			x := a(0)
+			vc.fact(fmt.Sprintf("(and (>= %s 0) (<= %s 64) (= (= %s 0) (= %s 0)))", r, r, r, x))
+			vc.fact(fmt.Sprintf("(=> (> %s 0) (and (<= %s %s) (< %s %s)))", x, vc.pow2Term("(- "+r+" 1)"), x, x, vc.pow2Term(r)))
+			vc.setRes(in, intT(r))
+			vc.modelUsed(name)
+			return true
+		case "LeadingZeros64":
+			r := vc.freshConst("lz", "Int")
+			x := a(0)
+			vc.fact(fmt.Sprintf("(and (>= %s 0) (<= %s 64) (= (= %s 64) (= %s 0)))", r, r, r, x))
+			vc.fact(fmt.Sprintf("(=> (> %s 0) (and (<= %s %s) (< %s %s)))", x, vc.pow2Term("(- 63 "+r+")"), x, x, vc.pow2Term("(- 64 "+r+")")))
+			vc.setRes(in, intT(r))
+			vc.modelUsed(name)
+			return true
+		}
+	case strings.HasPrefix(name, "(encoding/binary.bigEndian).") || strings.HasPrefix(name, "(encoding/binary.littleEndian)."):
+		return vc.binaryModel(in, name, args)
+	}
 	return false
+}
+
+func (vc *FnVC) u256Method(in *ssa.Call, m string, args []ssa.Value) bool {
+	a := func(i int) string { return vc.val(args[i]).S }
+	get := func(i int) string { return vc.cellGet("U256", a(i)) }
+	intT := func(s string) Term { return Term{S: s, Sort: "Int"} }
+	boolT := func(s string) Term { return Term{S: s, Sort: "Bool"} }
+	z := a(0)
+	name := "(*uint256.Int)." + m
+	what := "*" + vc.valueText(args[0])
+	set := func(v string) { vc.cellSet("U256", z, v, in, what) }
+	ok := true
+	switch m {
+	case "SetUint64":
+		set(a(1))
+		vc.setRes(in, intT(z))
+	case "Set":
+		set(get(1))
+		vc.setRes(in, intT(z))
+	case "SetOne":
+		set("1")
+		vc.setRes(in, intT(z))
+	case "Clear":
+		set("0")
+		vc.setRes(in, intT(z))
+	case "SetAllOne":
+		set("(- " + two256 + " 1)")
+		vc.setRes(in, intT(z))
+	case "Clone":
+		r := vc.newAllocRef("u256")
+		vc.cellSet("U256", r, get(0), in, "clone")
+		vc.setRes(in, intT(r))
+	case "Add", "Sub", "Mul":
+		op := map[string]string{"Add": "+", "Sub": "-", "Mul": "*"}[m]
+		x, y := get(1), get(2)
+		set(fmt.Sprintf("(mod (%s %s %s) %s)", op, x, y, two256))
+		vc.setRes(in, intT(z))
+	case "AddUint64", "SubUint64":
+		op := map[string]string{"AddUint64": "+", "SubUint64": "-"}[m]
+		x := get(1)
+		set(fmt.Sprintf("(mod (%s %s %s) %s)", op, x, a(2), two256))
+		vc.setRes(in, intT(z))
+	case "AddOverflow", "MulOverflow", "SubOverflow":
+		x, y := get(1), get(2)
+		var raw, ovf string
+		switch m {
+		case "AddOverflow":
+			raw = fmt.Sprintf("(+ %s %s)", x, y)
+			ovf = fmt.Sprintf("(>= %s %s)", raw, two256)
+		case "MulOverflow":
+			raw = fmt.Sprintf("(* %s %s)", x, y)
+			ovf = fmt.Sprintf("(>= %s %s)", raw, two256)
+		case "SubOverflow":
+			raw = fmt.Sprintf("(- %s %s)", x, y)
+			ovf = fmt.Sprintf("(< %s %s)", x, y)
+		}
+		o := vc.defineNamed("ovf", "Bool", ovf)
+		set(fmt.Sprintf("(mod %s %s)", raw, two256))
+		vc.setRes(in, intT(z), boolT(o))
+	case "Div", "Mod":
+		x, y := get(1), get(2)
+		op := "div"
+		if m == "Mod" {
+			op = "mod"
+		}
+		set(fmt.Sprintf("(ite (= %s 0) 0 (%s %s %s))", y, op, x, y))
+		vc.setRes(in, intT(z))
+	case "Lsh":
+		x := get(1)
+		set(fmt.Sprintf("(mod (* %s %s) %s)", x, vc.pow2Term(a(2)), two256))
+		vc.setRes(in, intT(z))
+	case "Rsh":
+		x := get(1)
+		set(fmt.Sprintf("(div %s %s)", x, vc.pow2Term(a(2))))
+		vc.setRes(in, intT(z))
+	case "Cmp":
+		x, y := get(0), get(1)
+		vc.setRes(in, intT(vc.defineNamed("cmp", "Int", fmt.Sprintf("(ite (< %s %s) (- 1) (ite (= %s %s) 0 1))", x, y, x, y))))
+	case "CmpUint64":
+		x, y := get(0), a(1)
+		vc.setRes(in, intT(vc.defineNamed("cmp", "Int", fmt.Sprintf("(ite (< %s %s) (- 1) (ite (= %s %s) 0 1))", x, y, x, y))))
+	case "Lt", "Gt", "Eq":
+		op := map[string]string{"Lt": "<", "Gt": ">", "Eq": "="}[m]
+		vc.setRes(in, boolT(vc.defineNamed("cmp", "Bool", fmt.Sprintf("(%s %s %s)", op, get(0), get(1)))))
+	case "LtUint64", "GtUint64":
+		op := map[string]string{"LtUint64": "<", "GtUint64": ">"}[m]
+		vc.setRes(in, boolT(vc.defineNamed("cmp", "Bool", fmt.Sprintf("(%s %s %s)", op, get(0), a(1)))))
+	case "IsZero":
+		vc.setRes(in, boolT(vc.defineNamed("isz", "Bool", fmt.Sprintf("(= %s 0)", get(0)))))
+	case "Sign":
+		vc.setRes(in, intT(vc.defineNamed("sgn", "Int", fmt.Sprintf("(ite (= %s 0) 0 1)", get(0)))))
+	case "IsUint64":
+		vc.setRes(in, boolT(vc.defineNamed("isu64", "Bool", fmt.Sprintf("(< %s %s)", get(0), two64))))
+	case "Uint64":
+		vc.setRes(in, intT(vc.defineNamed("u64", "Int", fmt.Sprintf("(mod %s %s)", get(0), two64))))
+	case "Uint64WithOverflow":
+		vc.setRes(in, intT(vc.defineNamed("u64", "Int", fmt.Sprintf("(mod %s %s)", get(0), two64))), boolT(vc.defineNamed("ovf", "Bool", fmt.Sprintf("(>= %s %s)", get(0), two64))))
+	case "ToBig":
+		r := vc.newAllocRef("big")
+		vc.cellSet("BigVal", r, get(0), in, "ToBig")
+		vc.setRes(in, intT(r))
+	case "SetFromBig":
+		b := vc.cellGet("BigVal", a(1))
+		ovf := vc.defineNamed("ovf", "Bool", fmt.Sprintf("(or (>= %s %s) (<= %s (- %s)))", b, two256, b, two256))
+		set(fmt.Sprintf("(mod %s %s)", b, two256))
+		vc.setRes(in, boolT(ovf))
+	case "BitLen":
+		r := vc.freshConst("blen", "Int")
+		x := get(0)
+		vc.fact(fmt.Sprintf("(and (>= %s 0) (<= %s 256) (= (= %s 0) (= %s 0)))", r, r, r, x))
+		vc.setRes(in, intT(r))
+	case "ByteLen":
+		r := vc.freshConst("bylen", "Int")
+		x := get(0)
+		vc.fact(fmt.Sprintf("(and (>= %s 0) (<= %s 32) (= (= %s 0) (= %s 0)))", r, r, r, x))
+		vc.setRes(in, intT(r))
+	default:
+		ok = false
+	}
+	if ok {
+		vc.modelUsed(name)
+	}
+	return ok
+}
+
+func (vc *FnVC) bigMethod(in *ssa.Call, m string, args []ssa.Value) bool {
+	a := func(i int) string { return vc.val(args[i]).S }
+	get := func(i int) string { return vc.cellGet("BigVal", a(i)) }
+	intT := func(s string) Term { return Term{S: s, Sort: "Int"} }
+	boolT := func(s string) Term { return Term{S: s, Sort: "Bool"} }
+	z := a(0)
+	name := "(*big.Int)." + m
+	what := "*" + vc.valueText(args[0])
+	set := func(v string) { vc.cellSet("BigVal", z, v, in, what) }
+	truncDiv := func(x, y string) string {
+		return fmt.Sprintf("(ite (>= %s 0) (ite (> %s 0) (div %s %s) (- (div %s (- %s)))) (ite (> %s 0) (- (div (- %s) %s)) (div (- %s) (- %s))))", x, y, x, y, x, y, y, x, y, x, y)
+	}
+	ok := true
+	switch m {
+	case "Set":
+		set(get(1))
+		vc.setRes(in, intT(z))
+	case "SetUint64", "SetInt64":
+		set(a(1))
+		vc.setRes(in, intT(z))
+	case "Add", "Sub", "Mul":
+		op := map[string]string{"Add": "+", "Sub": "-", "Mul": "*"}[m]
+		x, y := get(1), get(2)
+		set(fmt.Sprintf("(%s %s %s)", op, x, y))
+		vc.setRes(in, intT(z))
+	case "Neg":
+		set(fmt.Sprintf("(- %s)", get(1)))
+		vc.setRes(in, intT(z))
+	case "Abs":
+		x := get(1)
+		set(fmt.Sprintf("(ite (>= %s 0) %s (- %s))", x, x, x))
+		vc.setRes(in, intT(z))
+	case "Div", "Mod", "Quo", "Rem":
+		x, y := get(1), get(2)
+		vc.obAssert("bounds", "div-by-zero@"+vc.srcText(in), "big.Int division by zero panics", fmt.Sprintf("(not (= %s 0))", y), in.Pos())
+		switch m {
+		case "Div": // Euclidean division
+			set(fmt.Sprintf("(div %s %s)", x, y))
+		case "Mod":
+			set(fmt.Sprintf("(mod %s %s)", x, y))
+		case "Quo":
+			set(truncDiv(x, y))
+		case "Rem":
+			set(fmt.Sprintf("(- %s (* %s %s))", x, y, truncDiv(x, y)))
+		}
+		vc.setRes(in, intT(z))
+	case "Rsh":
+		// arithmetic shift: floor division by 2^n
+		x := get(1)
+		if k, isC := isConstVal(args[2]); isC && k.IsInt64() && k.Int64() < 4096 {
+			set(fmt.Sprintf("(div %s %s)", x, pow2(int(k.Int64())).String()))
+		} else {
+			set(fmt.Sprintf("(div %s %s)", x, vc.pow2Term(a(2))))
+		}
+		vc.setRes(in, intT(z))
+	case "Lsh":
+		x := get(1)
+		if k, isC := isConstVal(args[2]); isC && k.IsInt64() && k.Int64() < 4096 {
+			set(fmt.Sprintf("(* %s %s)", x, pow2(int(k.Int64())).String()))
+		} else {
+			set(fmt.Sprintf("(* %s %s)", x, vc.pow2Term(a(2))))
+		}
+		vc.setRes(in, intT(z))
+	case "Cmp":
+		x, y := get(0), get(1)
+		vc.setRes(in, intT(vc.defineNamed("cmp", "Int", fmt.Sprintf("(ite (< %s %s) (- 1) (ite (= %s %s) 0 1))", x, y, x, y))))
+	case "CmpAbs":
+		x, y := get(0), get(1)
+		ax := fmt.Sprintf("(ite (>= %s 0) %s (- %s))", x, x, x)
+		ay := fmt.Sprintf("(ite (>= %s 0) %s (- %s))", y, y, y)
+		vc.setRes(in, intT(vc.defineNamed("cmp", "Int", fmt.Sprintf("(ite (< %s %s) (- 1) (ite (= %s %s) 0 1))", ax, ay, ax, ay))))
+	case "Sign":
+		x := get(0)
+		vc.setRes(in, intT(vc.defineNamed("sgn", "Int", fmt.Sprintf("(ite (< %s 0) (- 1) (ite (= %s 0) 0 1))", x, x))))
+	case "IsUint64":
+		x := get(0)
+		vc.setRes(in, boolT(vc.defineNamed("isu64", "Bool", fmt.Sprintf("(and (>= %s 0) (< %s %s))", x, x, two64))))
+	case "IsInt64":
+		x := get(0)
+		vc.setRes(in, boolT(vc.defineNamed("isi64", "Bool", fmt.Sprintf("(and (>= %s (- 9223372036854775808)) (<= %s 9223372036854775807))", x, x))))
+	case "Uint64":
+		x := get(0)
+		// low 64 bits of |x| (undefined if not representable, per docs; the implementation returns the low word of the magnitude)
+		vc.setRes(in, intT(vc.defineNamed("u64", "Int", fmt.Sprintf("(mod (ite (>= %s 0) %s (- %s)) %s)", x, x, x, two64))))
+	case "Int64":
+		x := get(0)
+		r := vc.freshConst("i64", "Int")
+		vc.fact(fmt.Sprintf("(and (>= %s (- 9223372036854775808)) (<= %s 9223372036854775807))", r, r))
+		vc.fact(fmt.Sprintf("(=> (and (>= %s (- 9223372036854775808)) (<= %s 9223372036854775807)) (= %s %s))", x, x, r, x))
+		vc.setRes(in, intT(r))
+	case "BitLen":
+		r := vc.freshConst("blen", "Int")
+		x := get(0)
+		ax := fmt.Sprintf("(ite (>= %s 0) %s (- %s))", x, x, x)
+		vc.fact(fmt.Sprintf("(and (>= %s 0) (= (= %s 0) (= %s 0)))", r, r, x))
+		// the thresholds the code base tests against
+		for _, k := range []int{8, 64, 256} {
+			vc.fact(fmt.Sprintf("(= (<= %s %d) (< %s %s))", r, k, ax, pow2(k).String()))
+		}
+		vc.setRes(in, intT(r))
+	default:
+		ok = false
+	}
+	if ok {
+		vc.modelUsed(name)
+	}
+	return ok
+}
+
+// binaryModel: encoding/binary fixed-width accessors over byte slices.
+func (vc *FnVC) binaryModel(in *ssa.Call, name string, args []ssa.Value) bool {
+	big := strings.Contains(name, "bigEndian")
+	m := name[strings.LastIndex(name, ".")+1:]
+	widths := map[string]int{"Uint16": 2, "Uint32": 4, "Uint64": 8, "PutUint16": 2, "PutUint32": 4, "PutUint64": 8}
+	w, ok := widths[m]
+	if !ok {
+		return false
+	}
+	// args[0] is the (empty struct) receiver
+	b := vc.val(args[1])
+	c, s := vc.elemComp(types.Typ[types.Uint8])
+	src := vc.srcText(in)
+	vc.obAssert("bounds", "bounds@"+src, fmt.Sprintf("binary.%s needs %d bytes", m, w), fmt.Sprintf("(>= (s.len %s) %d)", b.S, w), in.Pos())
+	if strings.HasPrefix(m, "Put") {
+		v := vc.val(args[2]).S
+		h := vc.heapGet(c, s)
+		arr := fmt.Sprintf("(select %s (s.arr %s))", h, b.S)
+		for i := 0; i < w; i++ {
+			shift := i
+			if big {
+				shift = w - 1 - i
+			}
+			arr = fmt.Sprintf("(store %s (+ (s.off %s) %d) (mod (div %s %s) 256))", arr, b.S, i, v, pow2(8*shift).String())
+		}
+		vc.checkRangeWrite(modItem{text: "binary." + m, kind: "range", ref: fmt.Sprintf("(s.arr %s)", b.S), comp: c, lo: fmt.Sprintf("(s.off %s)", b.S), hi: fmt.Sprintf("(+ (s.off %s) %d)", b.S, w)}, in.Pos())
+		vc.heapSet(c, s, fmt.Sprintf("(store %s (s.arr %s) %s)", h, b.S, arr))
+		vc.modelUsed(name)
+		return true
+	}
+	h := vc.heapGet(c, s)
+	var parts []string
+	for i := 0; i < w; i++ {
+		shift := i
+		if big {
+			shift = w - 1 - i
+		}
+		parts = append(parts, fmt.Sprintf("(* (select (select %s (s.arr %s)) (+ (s.off %s) %d)) %s)", h, b.S, b.S, i, pow2(8*shift).String()))
+	}
+	r := vc.defineNamed("bin", "Int", "(+ "+strings.Join(parts, " ")+")")
+	vc.setRes(in, Term{S: r, Sort: "Int"})
+	vc.modelUsed(name)
+	return true
 }
 
 // ifaceModel handles interface method calls with a model.
@@ -20,4 +424,25 @@ func (vc *FnVC) ifaceModel(in *ssa.Call) bool {
 
 // globalModel adds facts about well-known package-level variables.
 func (p *Prog) globalModel(vc *FnVC, o *types.Var, name string) {
+	if o.Pkg() == nil {
+		return
+	}
+	full := o.Pkg().Path() + "." + o.Name()
+	bigConsts := map[string]string{
+		"github.com/ethereum/go-ethereum/common.Big0":   "0",
+		"github.com/ethereum/go-ethereum/common.Big1":   "1",
+		"github.com/ethereum/go-ethereum/common.Big2":   "2",
+		"github.com/ethereum/go-ethereum/common.Big3":   "3",
+		"github.com/ethereum/go-ethereum/common.Big32":  "32",
+		"github.com/ethereum/go-ethereum/common.Big256": "256",
+		"github.com/ethereum/go-ethereum/common.Big257": "257",
+	}
+	if v, ok := bigConsts[full]; ok {
+		vc.fact(fmt.Sprintf("(> %s 0)", name))
+		vc.decl("allocated0", "(declare-fun allocated0 (Int) Bool)")
+		vc.fact(fmt.Sprintf("(allocated0 %s)", name))
+		vc.decl("bigconst$"+name, fmt.Sprintf("(assert (= (select %s %s) %s))", vc.entryComp("BigVal", "(Array Int Int)"), name, v))
+		vc.bigConstRefs = append(vc.bigConstRefs, [2]string{name, v})
+		vc.assume("package-level *big.Int constant " + full + " holds " + v + " and is never written")
+	}
 }
